@@ -5,6 +5,7 @@ controller / system calls on the REAL operon_ai.coordination code under a
 virtual clock and produces the canonical observations the Coq model
 (`C14/Model.v`, `run_ops`) produces for the same history.
 """
+import functools
 import itertools
 from datetime import datetime as _real_datetime, timedelta
 
@@ -69,7 +70,36 @@ class _StrNotStr(Exception):
 EXC_NAMES = ["message", "no-args", "bare-assert", "KeyError()", "StopIteration()", "falsy-empty-str", "empty-message",
              "falsy-arg", "TimeoutError()", "KeyError('r1')", "two-args", "OSError(2,..)", "system's-ValidationError()",
              "system's-ResourceError(msg)", "ExceptionGroup", "arg-None", "unprintable(__str__ raises)",
-             "unprintable(__str__ returns None)"]
+             "unprintable(__str__ returns None)",
+             # the CLASSES ordinary bugs in a callback body raise (sum(None), None.items(), [][0], 1/0 ...): in
+             # particular TypeError, which is also what a call with the wrong number of arguments raises
+             "TypeError(unsupported-operand)", "TypeError()", "subclass-of-TypeError", "AttributeError(msg)",
+             "NameError(msg)", "IndexError(msg)", "ZeroDivisionError(msg)", "NotImplementedError()",
+             "RecursionError(msg)", "UnicodeDecodeError", "TypeError(looks-like-a-signature-mismatch)",
+             "StopAsyncIteration()", "MemoryError()"]
+N_OLD_EXC = 18
+TYPEERRORS = [18, 19, 20, 28]       # indices of the TypeError instances
+
+
+class _BadPayload(TypeError):
+    """What a validating work function of the user's might raise: a TypeError subclass."""
+
+
+_LATE_EXC = [
+    lambda: TypeError("unsupported operand type(s) for +: 'int' and 'str'"),
+    lambda: TypeError(),
+    lambda: _BadPayload("payload is not a mapping"),
+    lambda: AttributeError("'NoneType' object has no attribute 'items'"),
+    lambda: NameError("name 'total' is not defined"),
+    lambda: IndexError("list index out of range"),
+    lambda: ZeroDivisionError("division by zero"),
+    lambda: NotImplementedError(),
+    lambda: RecursionError("maximum recursion depth exceeded"),
+    lambda: UnicodeDecodeError("utf-8", b"\xff", 0, 1, "invalid start byte"),
+    lambda: TypeError("work_fn() takes 0 positional arguments but 1 was given"),
+    lambda: StopAsyncIteration(),
+    lambda: MemoryError(),
+]
 
 
 def exc_value(k, site, S):
@@ -109,7 +139,71 @@ def exc_value(k, site, S):
         return InjectedFault(None)
     if k == 16:
         return _Unprintable()
-    return _StrNotStr("text")
+    if k == 17:
+        return _StrNotStr("text")
+    return _LATE_EXC[k - N_OLD_EXC]()
+
+
+# ----------------------------------------------------------------------------
+# the SHAPE of the callables the caller hands in (script field "sig"; the model's [sc_wsh] / [sc_vsh])
+# ----------------------------------------------------------------------------
+# spec = [kind, lo, hi]: a callable of that KIND whose signature accepts lo..hi positional arguments (hi None: *args).
+# The property speaks of "the work function", "validation", "checkpoint": any callable.  What execute_operation may
+# rely on is only that it can call work_fn() / validate_fn(result) / condition(ctx); a callable that tolerates MORE
+# arguments, or is an object rather than a function, or is falsy as an object, is the same work function.
+KINDS = ["def", "lambda", "partial", "method", "object", "falsy-object", "kwargs"]
+_MISSING = object()
+PLAIN_SIG = {"work": ["def", 0, 0], "validate": ["def", 1, 1], "cp": ["def", 1, 1]}
+CALL_ARGS = {"work": 0, "validate": 1, "cp": 1}     # how many arguments the call made by the code supplies
+# signatures by whether they accept that call
+SIGS_OK = {"work": [(0, 0), (0, 1), (0, 2), (0, None)],
+           "validate": [(1, 1), (0, 1), (1, 2), (0, 2), (0, None), (1, None)],
+           "cp": [(1, 1), (0, 1), (1, 2), (0, 2), (0, None), (1, None)]}
+SIGS_BAD = {"work": [(1, 1), (1, 2), (1, None), (2, 2)],
+            "validate": [(0, 0), (2, 2), (2, None), (2, 3)]}
+
+
+def sig_accepts(spec, n):
+    return spec[1] <= n and (spec[2] is None or n <= spec[2])
+
+
+def sig_name(spec):
+    return f"{spec[0]}:{spec[1]}..{'*' if spec[2] is None else spec[2]}"
+
+
+def make_callable(spec, body):
+    """A callable of kind spec[0] accepting spec[1]..spec[2] positional arguments; calling it runs body(args),
+    args = the positional arguments that were actually supplied."""
+    kind, lo, hi = spec
+    if kind not in KINDS or lo < 0 or (hi is not None and hi < lo):
+        raise ValueError(f"bad callable spec {spec}")
+    req = [f"a{i}" for i in range(lo)]
+    opt = [] if hi is None else [f"d{i}" for i in range(hi - lo)]
+    plist = req + [f"{d}=_M" for d in opt] + (["*rest"] if hi is None else []) + (["**kw"] if kind == "kwargs" else [])
+    params = ", ".join(plist)
+    tup = "(" + "".join(n + ", " for n in req + opt) + ")" + (" + rest" if hi is None else "")
+    call = f"body(tuple(x for x in {tup} if x is not _M))"
+    if kind in ("def", "kwargs"):
+        src = f"def f({params}):\n    return {call}\n"
+    elif kind == "lambda":
+        src = f"f = lambda {params}: {call}\n"
+    elif kind == "partial":
+        src = f"def g(tag, {params}):\n    return {call}\nf = functools.partial(g, 'bound')\n"
+    elif kind == "method":
+        src = f"class Job:\n    def run(self, {params}):\n        return {call}\nf = Job().run\n"
+    elif kind == "object":
+        src = f"class Job:\n    def __call__(self, {params}):\n        return {call}\nf = Job()\n"
+    else:
+        # an object that is callable AND falsy: a (still empty) list of rules with __call__
+        src = f"class Rules(list):\n    def __call__(self, {params}):\n        return {call}\nf = Rules()\n"
+    ns = {"_M": _MISSING, "body": body, "functools": functools}
+    exec(src, ns)
+    return ns["f"]
+
+
+def coq_shape(spec):
+    kind, lo, hi = spec
+    return f"(mkShape {lo}%nat {'None' if hi is None else '(Some %d%%nat)' % hi} {cbool(kind != 'falsy-object')})"
 
 
 # what a REJECTING validator returns (a falsy object) and what the work function returns, by the same index
@@ -201,9 +295,11 @@ class World:
             return r
         self.ctl.acquire_resource = acquire_resource
         # wrap the default checkpoint conditions: log every evaluation, inject scripted faults
+        self.cp_conds = []         # (checkpoint object, its wrapped condition as a plain `def cond(ctx)`)
         for _ph, cps in self.ctl.checkpoints.items():
             for cp in cps:
                 cp.condition = self._wrap_condition(cp.condition)
+                self.cp_conds.append((cp, cp.condition))
 
     def _wrap_condition(self, orig):
         def cond(ctx):
@@ -255,7 +351,8 @@ class World:
                 else:
                     enc = [3, 50] + rows[0][1:]
                     for r in rows[1:]:
-                        enc += [len(r) - 1] + r[1:]
+                        if r[0] == 105:          # its callback log ([106] = the run counts: derivable from it)
+                            enc += [len(r) - 1] + r[1:]
                     parent_log.append(enc)
                     parent_info["nested"].append(sub)
             else:
@@ -420,7 +517,12 @@ class World:
         self.ever.add(o)
         log = []
         info = {"op": o, "reqs": list(reqs), "entry": None, "acq_from": len(self.acq_log), "script": sc,
-                "nested": [], "depth": len(self.encl), "before": self.view()}
+                "nested": [], "depth": len(self.encl), "before": self.view(),
+                "runs": {"work": 0, "validate": 0, "cp": 0}}     # how many times each callback BODY ran
+        runs = info["runs"]
+        sig = {**PLAIN_SIG, **sc.get("sig", {})}
+        if not sig_accepts(sig["cp"], 1):
+            raise ValueError(f"a checkpoint condition must accept (ctx): {sig['cp']}")
         saved = (self.script, self.cp_count, self.log, self.mark, self.scripted_events, self.cur_info, self.encl)
         self.script, self.cp_count, self.log = sc, 0, log
         self.cur_info, self.encl = info, (o,) + tuple(self.encl)
@@ -431,7 +533,8 @@ class World:
 
         val = sc.get("val", 0)     # which exception / falsy verdict / result objects the callbacks of this call use
 
-        def work_fn():
+        def work_body(_args):
+            runs["work"] += 1
             log.append([1])
             info["entry"] = self.view()
             self._run_acts(sc["work"])
@@ -443,7 +546,8 @@ class World:
             self._mark()
             return RESULTS[val % len(RESULTS)]
 
-        def validate_fn(result):
+        def validate_body(_args):
+            runs["validate"] += 1
             if sc["validate"] == "raise":
                 log.append([7])
                 self._mark()
@@ -452,6 +556,18 @@ class World:
             log.append([6, int(ok)])
             self._mark()
             return True if ok else FALSY[val % len(FALSY)]
+        # the callables handed to the code have the SHAPE the script asks for (kind of callable x signature)
+        work_fn = make_callable(sig["work"], work_body)
+        validate_fn = make_callable(sig["validate"], validate_body)
+        saved_conds = [cp.condition for cp, _c in self.cp_conds]
+        if sig["cp"] != PLAIN_SIG["cp"]:
+            def cp_body(cond):
+                def body(args):
+                    runs["cp"] += 1
+                    return cond(args[0])
+                return body
+            for cp, cond in self.cp_conds:
+                cp.condition = make_callable(sig["cp"], cp_body(cond))
         raised = None
         try:
             # `resources` is Optional: an empty request list is passed as None by every other operation id
@@ -477,6 +593,8 @@ class World:
             last_view, last_acq = self.mark
         finally:
             (self.script, self.cp_count, self.log, self.mark, parent_scripted, self.cur_info, self.encl) = saved
+            for (cp, _c), c0 in zip(self.cp_conds, saved_conds):
+                cp.condition = c0
             # what a nested call's scripts asked for was asked for by the enclosing work function as well
             parent_scripted.extend(scripted_events)
             self.scripted_events = parent_scripted
@@ -493,7 +611,7 @@ class World:
                                     if e.operation_id == oname(o) and id(e) not in scripted_events]
         head = [100, -2, raised[0]] if raised is not None else \
             [100, int(success), -1 if res is None else PHASE[res.phase_reached.value]]
-        rows = [head] + [[105] + e for e in log]
+        rows = [head, [106, runs["work"], runs["validate"]]] + [[105] + e for e in log]
         return rows, info
 
 
@@ -597,8 +715,10 @@ def coq_script(sc):
         return f"(WDo {coq_fop(x[1])})"
     work = clist([wact(x) for x in sc["work"] if x[0] != "look"])
     cpw = clist([clist([coq_cact(x) for x in acts if x[0] != "look"]) for acts in sc.get("cpw", [])])
+    # the checkpoint conditions' shape ("cp", always one that accepts (ctx)) is not part of the model's alphabet
+    sig = {**PLAIN_SIG, **sc.get("sig", {})}
     return (f"(mkScript {clist([CPO[c] for c in sc['cp']])} {cpw} {work} {cbool(sc['raises'])} "
-            f"{VFN[sc['validate']]} {cz(sc.get('val', 0))})")
+            f"{VFN[sc['validate']]} {cz(sc.get('val', 0))} {coq_shape(sig['work'])} {coq_shape(sig['validate'])})")
 
 
 def coq_op(a):
@@ -616,9 +736,12 @@ def coq_res(res):
     return clist([ctuple(cz(r), cbool(p)) for r, p in res])
 
 
-def plain_script(cp=(), work=(), raises=False, validate="none", cpw=(), val=0):
-    return {"cp": list(cp), "cpw": [[list(x) for x in acts] for acts in cpw],
-            "work": [list(x) for x in work], "raises": raises, "validate": validate, "val": val}
+def plain_script(cp=(), work=(), raises=False, validate="none", cpw=(), val=0, sig=None):
+    sc = {"cp": list(cp), "cpw": [[list(x) for x in acts] for acts in cpw],
+          "work": [list(x) for x in work], "raises": raises, "validate": validate, "val": val}
+    if sig:
+        sc["sig"] = {k: list(v) for k, v in sig.items()}
+    return sc
 
 
 def raising_sites(sc, log):
@@ -709,6 +832,20 @@ class C14(Check):
             "operation that needs the same resources; 40 % of the random scripts draw a value. A call that raises instead "
             "of returning is an observation ([100, -2, class]; the model has no such outcome) and the state it leaves "
             "behind is judged like that of a call that returned. "
+            "Widened for the SHAPE of the callables (script field sig; the model's sc_wsh / sc_vsh): work_fn, validate_fn "
+            "and the checkpoint conditions are built as one of 7 kinds of callable (def, lambda, functools.partial, bound "
+            "method, object with __call__, a FALSY object with __call__ - an empty list of rules -, def with **kw) with a "
+            "signature accepting lo..hi positional arguments (work_fn: 0..0, 0..1, 0..2, 0..*; validator and conditions: 1..1, "
+            "0..1, 1..2, 0..2, 0..*, 1..*; and signatures that do NOT accept the call the code makes - work_fn needing an "
+            "argument, a validator without parameters or needing two: TypeError from the call itself, the body never runs), "
+            "combined with the CLASS of what the body raises: the value alphabet grew by 13 (TypeError with a message / "
+            "without / a subclass / with a message that reads like a signature mismatch, AttributeError, NameError, "
+            "IndexError, ZeroDivisionError, NotImplementedError, RecursionError, UnicodeDecodeError, StopAsyncIteration, "
+            "MemoryError). How many times the BODY of work_fn / validate_fn ran during each call is an observation "
+            "([106, work runs, validate runs]; the model counts the events of its log). Exhaustive part: 7 kinds x every "
+            "signature x (returns / rejects / raises x exception values) for each of the three callables, all three "
+            "tolerant at once, at top level and nested, each followed by an operation that needs the same resources; 30 % "
+            "of the random scripts draw shapes (12 % of those a signature that does not accept the call). "
             "non-trivial = some fault, repeat, pre-held resource or scripted callback; distinct by content")
     LEVEL_TEXT = ("Coq theorems, for every well-formed controller state (an invariant proved to be preserved by every operation, so every "
                   "reachable state), every request list, priority, fault script, scripted work function and scripted checkpoint callbacks "
@@ -724,7 +861,11 @@ class C14(Check):
                   "nobody, terminates) and, as an invariant, every owner is an active operation; the whole outcome of a call "
                   "(state, success, phase, callback log) is the same whatever exception objects its raising callbacks raise, whatever "
                   "falsy object a rejecting validator returns and whatever work_fn returns, at every nesting depth "
-                  "(c14_callback_values_irrelevant). The "
+                  "(c14_callback_values_irrelevant); the body of work_fn runs at most once per call and that of validate_fn at "
+                  "most once and only after it, success means exactly one run of each callable that was handed in "
+                  "(c14_bodies_run_at_most_once); a callable whose signature does not accept the call execute_operation makes "
+                  "never runs and the operation fails (c14_uncallable_work_never_runs, c14_uncallable_validator_never_passes); "
+                  "beyond that the signatures and the truth value of the callables decide nothing (c14_signatures_irrelevant). The "
                   "model is tied to the code by running both on the same generated histories (model evaluated by vm_compute).")
     LEVEL_NOTE = ("Trusts: Coq kernel+VM; the correspondence harness; an operation id is never that of a live operation (driver-enforced; "
                   "execute_operation may re-use the id of an ended one, but a nested call never the id of an operation whose call encloses it); single-threaded calls; checkpoint callbacks restricted to the "
@@ -746,6 +887,11 @@ class C14(Check):
                "(EXC_NAMES / FALSY / RESULTS) and opaque to the model, which never reads the index; that the code's treatment of them "
                "(str(e), truth test, passing the result on) does not depend on the value is what the correspondence on these cases "
                "tests; through IntegratedCell an escaped exception is seen as a failed result without coordination_result",
+               "callable shapes: the model knows a work function / validator by the range of positional-argument counts its "
+               "signature accepts and by its truth value (sc_wsh / sc_vsh); the KIND of callable (def, lambda, partial, bound "
+               "method, callable object, **kw) and the shape of the checkpoint conditions (always one that accepts (ctx)) are "
+               "not part of the model's alphabet: that they are transparent is what the correspondence on these cases tests; "
+               "the harness builds the callables from generated source text (make_callable)",
                "a LockResult other than acquired/blocked/reentrant/preempted is logged as code 8 (the model has no such "
                "result: any occurrence is a disagreement) and counts as 'not obtained' in the monitor"]
     ASSUMPTIONS = ["an operation is never started under the id of a LIVE operation; start_operation (step API) ids are fresh; "
@@ -757,6 +903,8 @@ class C14(Check):
                    "exception objects raised by callbacks derive from Exception: KeyboardInterrupt / SystemExit / GeneratorExit and "
                    "other BaseException subclasses, which `except Exception` is not meant to stop, pass through execute_operation "
                    "without any clean-up and are outside the alphabet",
+                   "the checkpoint conditions installed in the controller accept the call condition(ctx) (any kind, any tolerant "
+                   "signature); callables take their arguments positionally (no keyword-only required parameters)",
                    "calls are sequential (no concurrent threads inside the controller)"]
 
     # -- generation --------------------------------------------------------
@@ -811,11 +959,28 @@ class C14(Check):
                 out.append(["probe"])
         return out
 
+    @staticmethod
+    def _rand_sig(rng):
+        """Shapes of the callables of one call: kind x signature, mostly one that accepts the call the code makes."""
+        sig = {}
+        for site in ("work", "validate", "cp"):
+            if rng.random() < 0.6:
+                bad = site != "cp" and rng.random() < 0.12
+                lo, hi = rng.choice(SIGS_BAD[site] if bad else SIGS_OK[site])
+                sig[site] = [rng.choice(KINDS), lo, hi]
+        return sig
+
     def _rand_script(self, rng, me, ops_pool, res_pool, depth=0):
         name, sc = rng.choice(FAULTS)
         sc = {**sc, "cp": list(sc["cp"]), "cpw": [], "work": []}
         if rng.random() < 0.4:
             sc["val"] = rng.randrange(len(EXC_NAMES))      # which exception / falsy verdict / result objects
+        if rng.random() < 0.3:
+            sig = self._rand_sig(rng)
+            if sig:
+                sc["sig"] = sig
+                if rng.random() < 0.5:
+                    sc["val"] = rng.choice(TYPEERRORS + [21, 3, 4])   # what bugs in a body raise: TypeError first of all
         if rng.random() < 0.3:
             sc["cpw"] = [self._rand_cacts(rng, me, ops_pool) if rng.random() < 0.45 else [] for _ in range(rng.randint(1, 4))]
         if rng.random() < 0.25:
@@ -1106,7 +1271,79 @@ class C14(Check):
         out += self._nested_cases()
         out += self._crowd_cases()
         out += self._value_cases()
+        out += self._shape_cases()
         return self._decorate(out)
+
+    def _shape_cases(self):
+        """The SHAPE of the callables: every kind (def, lambda, functools.partial, bound method, callable object,
+        falsy callable object, def with **kw) x every signature (accepting the call the code makes - exactly, with a
+        defaulted extra parameter, with *args - or not accepting it) for the work function, the validator and the
+        checkpoint conditions x what the body does (returns / rejects / raises: a TypeError with and without
+        message, a subclass, one whose message reads like a signature mismatch, AttributeError, KeyError(),
+        StopIteration(), an ordinary one), on a request list with a preemption, at top level and nested, each
+        followed by an operation that needs the same resources and shutdown."""
+        res = [[1, False], [2, True], [3, True]]
+        quick = self.tier == "quick"
+        out = []
+
+        def case(sc, reqs=(2, 1), pre=True, nested=False):
+            if nested:
+                sc = plain_script(work=[["probe"], ["exec", 2, 9, [2, 3], sc], ["probe"]],
+                                  raises=sc["raises"], validate=sc["validate"], val=sc["val"], sig=sc.get("sig"))
+            ops = ([["start", 5, 0, False], ["acq", 5, 2]] if pre and not nested else []) + \
+                  [["exec", 1, 3, list(reqs), sc], ["exec", 4, 4, list(reqs), plain_script(work=[["probe"]])], ["shutdown"]]
+            out.append({"res": res, "w": dict(NOW), "ops": ops})
+        raise_vals = [18, 0] if quick else [18, 19, 20, 28, 21, 3, 4, 0]
+        kinds = KINDS
+        # the work function
+        for kind in kinds:
+            for lo, hi in SIGS_OK["work"] + SIGS_BAD["work"]:
+                sig = {"work": [kind, lo, hi]}
+                for validate in (("true",) if quick else ("none", "true", "false")):
+                    case(plain_script(work=[["probe"]], validate=validate, sig=sig))
+                for v in raise_vals:
+                    case(plain_script(work=[["probe"]], raises=True, validate="true", val=v, sig=sig))
+                if not quick or (lo, hi) in ((0, None), (0, 1), (1, 1)):
+                    case(plain_script(work=[["probe"]], raises=True, val=18, sig=sig), nested=True)
+                    case(plain_script(work=[["probe"]], raises=True, val=19, sig=sig), reqs=(1, 1))
+        # the validator
+        for kind in kinds:
+            for lo, hi in SIGS_OK["validate"] + SIGS_BAD["validate"]:
+                sig = {"validate": [kind, lo, hi]}
+                for validate in ("true", "false"):
+                    case(plain_script(work=[["probe"]], validate=validate, val=(0 if quick else 3), sig=sig))
+                for v in raise_vals:
+                    case(plain_script(work=[["probe"]], validate="raise", val=v, sig=sig))
+                if not quick:
+                    case(plain_script(work=[["probe"]], validate="false", sig=sig), nested=True)
+                    case(plain_script(work=[["probe"]], raises=True, validate="true", val=18, sig=sig))
+        # the checkpoint conditions (always a signature that accepts (ctx)); the k-th evaluation fails / raises
+        for kind in kinds:
+            for lo, hi in SIGS_OK["cp"]:
+                if quick and (lo, hi) not in ((1, 1), (0, None), (1, 2)):
+                    continue
+                sig = {"cp": [kind, lo, hi]}
+                case(plain_script(work=[["probe"]], validate="true", sig=sig))
+                for k in ((1, 3) if quick else (0, 1, 2, 3)):
+                    cp = ["default"] * k
+                    case(plain_script(cp=cp + ["raise"], work=[["probe"]], validate="true", val=18, sig=sig))
+                    if not quick:
+                        case(plain_script(cp=cp + ["false"], work=[["probe"]], validate="true", sig=sig))
+                        case(plain_script(cp=cp + ["raise"], work=[["probe"]], validate="true", val=19, sig=sig))
+        # all three at once: every callable tolerates more than it is given, each body raises TypeError in turn
+        for kind in kinds:
+            for wsig, vsig, csig in (((0, None), (0, None), (0, None)), ((0, 1), (1, 2), (1, 2)), ((0, 2), (1, None), (0, 1))):
+                sig = {"work": [kind, *wsig], "validate": [kind, *vsig], "cp": [kind, *csig]}
+                for sc in (plain_script(work=[["probe"]], validate="true", sig=sig),
+                           plain_script(work=[["probe"]], raises=True, validate="true", val=18, sig=sig),
+                           plain_script(work=[["probe"]], validate="raise", val=18, sig=sig),
+                           plain_script(work=[["probe"]], validate="false", val=18, sig=sig),
+                           plain_script(cp=["default", "raise"], work=[["probe"]], validate="true", val=18, sig=sig),
+                           plain_script(cp=["default", "default", "default", "raise"], work=[["probe"]], validate="true", val=18, sig=sig)):
+                    case(sc)
+                    if not quick:
+                        case(sc, nested=True)
+        return out
 
     def _value_cases(self):
         """The alphabet of callback VALUES: every exception object of EXC_NAMES raised by each callback that can raise
@@ -1443,8 +1680,14 @@ class C14(Check):
         if owned_by(o) or o in after["active"]:
             return Violation("C14/leak-after-execute", f"{where}: after execute_operation(op{o}, {info['reqs']}) it still owns {owned_by(o)} / active={o in after['active']}" + how)
         works = [j for j, e in enumerate(log) if e == [1]]
-        if len(works) > 1:
-            return Violation("C14/work-twice", f"{where}: work_fn invoked {len(works)} times")
+        nruns = max(len(works), info.get("runs", {}).get("work", 0))
+        if nruns > 1:
+            sig = {**PLAIN_SIG, **sc.get("sig", {})}
+            return Violation("C14/work-twice",
+                             f"{where}: the body of the work function of op{o} ran {nruns} times during one execute_operation "
+                             f"(work_fn is a {sig_name(sig['work'])} callable, i.e. of kind {sig['work'][0]} accepting "
+                             f"{sig['work'][1]}..{'any number of' if sig['work'][2] is None else sig['work'][2]} positional arguments)"
+                             + how + f"; success={info['success']}; log {log}")
         if works:
             ent = info["entry"]["owners"]
             missing = [r for r in info["reqs"] if r in ent and ent[r][0] != o]
@@ -1459,7 +1702,14 @@ class C14(Check):
             return Violation("C14/validate-before-work", f"{where}: validation ran before work_fn returned: {log}")
         val_ok = sc["validate"] == "none" or [6, 1] in log
         if info["success"] and not (rets and val_ok):
-            return Violation("C14/success-without-both", f"{where}: success reported, log {log}")
+            sig = {**PLAIN_SIG, **sc.get("sig", {})}
+            return Violation("C14/success-without-both",
+                             f"{where}: execute_operation(op{o}) reports success although "
+                             + ("work_fn did not return normally" if not rets else
+                                f"the validator that was handed in (a {sig_name(sig['validate'])} callable, "
+                                f"bool(validate_fn)={sig['validate'][0] != 'falsy-object'}) did not return true: its body ran "
+                                f"{info.get('runs', {}).get('validate', 0)} times")
+                             + f"; log {log}")
         cps = [e for e in log if e[0] == 0]
         all_pass = len(cps) == 4 and all(e[2] == 1 for e in cps[1:])
         if bool(rets and val_ok and all_pass) != info["success"]:
@@ -1526,6 +1776,16 @@ class C14(Check):
                 for (_o, _r, res) in info["acqs"]:
                     ks.append("acquire=" + {0: "acquired", 1: "blocked", 2: "reentrant", 3: "preempted"}.get(res, "other-result"))
                 for sub in [info] + self._all_nested(info):
+                    for site, spec in sub["script"].get("sig", {}).items():
+                        ks.append(f"shape:{site}:kind={spec[0]}")
+                        ks.append(f"shape:{site}:args={spec[1]}..{'*' if spec[2] is None else spec[2]}")
+                        if not sig_accepts(spec, CALL_ARGS[site]):
+                            ks.append(f"shape:{site}:does-not-accept-the-call")
+                        elif (spec[1], spec[2]) != (CALL_ARGS[site], CALL_ARGS[site]):
+                            ks.append(f"shape:{site}:tolerates-other-argument-counts")
+                        if site == "work" and [5] in sub["log"] and sub["val"] in TYPEERRORS and spec[2] != 0:
+                            ks.append("tolerant-work_fn-raises-TypeError-from-its-body")
+                    ks.append(f"runs:work={sub['runs']['work']},validate={sub['runs']['validate']}")
                     for site in raising_sites(sub["script"], sub["log"]):
                         ks.append("raised:" + site.split("-")[0] + ":" + EXC_NAMES[sub["val"] % len(EXC_NAMES)])
                     if [6, 0] in sub["log"]:
@@ -1608,6 +1868,13 @@ class C14(Check):
             yield {**sc, "cp": []}
         if sc.get("val"):
             yield {**sc, "val": 0}
+        if sc.get("sig"):
+            yield {k: v for k, v in sc.items() if k != "sig"}
+            for site, spec in sc["sig"].items():
+                rest = {k: v for k, v in sc["sig"].items() if k != site}
+                yield {**sc, "sig": rest}
+                if spec[0] != "def":
+                    yield {**sc, "sig": {**sc["sig"], site: ["def", spec[1], spec[2]]}}
         for j, x in enumerate(sc["work"]):
             yield {**sc, "work": sc["work"][:j] + sc["work"][j + 1:]}
         for j, x in enumerate(sc["work"]):
